@@ -148,12 +148,10 @@ theorem build_spec (p : Parsed) (d n : Nat) :
       rw [List.range'_succ]
     · simp only [Parsed.build, h2]; omega
 
-theorem appendInnerHTML_Inv {t p} (hw : Inv w) (h : w.appendInnerHTML t p = some (w', v)) : Inv w' := by
-  simp only [World.appendInnerHTML, Option.map_eq_some_iff] at h
-  obtain ⟨w1, h1, he⟩ := h
-  simp only [Prod.mk.injEq] at he
-  rw [← he.1]
-  refine appendBlocksLoop_Inv _ ?_ h1
+/-- the world after `createBlocksFromHTML` (the new detached elements have joined the roots) -/
+theorem fragment_world_Inv (p : Parsed) (hw : Inv w) :
+    Inv { roots := w.roots ++ (createBlocks (p.build w.nextDoc w.next).1).filter DN.isEl,
+          next := (p.build w.nextDoc w.next).2, nextDoc := w.nextDoc + 1 } := by
   obtain ⟨k, hok, hids, hnext⟩ := build_spec p w.nextDoc w.next
   obtain ⟨hr, hnd, hrg⟩ := createBlocks_roots _ hok hids
   refine ⟨?_, ?_, ?_⟩
@@ -175,6 +173,13 @@ theorem appendInnerHTML_Inv {t p} (hw : Inv w) (h : w.appendInnerHTML t p = some
     cases hi with
     | inl h => have := hw.fresh i h; omega
     | inr h => exact (hrg i h).2
+
+theorem appendInnerHTML_Inv {t p} (hw : Inv w) (h : w.appendInnerHTML t p = some (w', v)) : Inv w' := by
+  simp only [World.appendInnerHTML, Option.map_eq_some_iff] at h
+  obtain ⟨w1, h1, he⟩ := h
+  simp only [Prod.mk.injEq] at he
+  rw [← he.1]
+  exact appendBlocksLoop_Inv _ (fragment_world_Inv p hw) h1
 
 /-! ### insertion, removal, attributes -/
 
